@@ -32,6 +32,10 @@ claim("C09", "path-sensitive SSA fact walk + operand provenance + pass-through c
       "Structural necessary condition of the lifetime threshold for all durations: Validate ok only with expiration==0 or t in (now-expiration, now+5m) with exactly those operands and t parsed from the MAC-covered timestamp; all callers pass Cookie.Expire; signed timestamp is *CreatedAt of the saved session; Save stamps only unset sessions; refresh re-stamps before saving; Max-Age and store TTL flow unchanged from Cookie.Expire. Level 'other'.",
       TRUST + " Not decided: off-by-one/second-granularity value semantics of time comparisons; Redis TTL behaviour.", "DESIGN.md §5 C09")
 
+claim("C11", "path-sensitive SSA fact walk + error-propagation chain + constant-regex probe + sibling agreement",
+      "Structural necessary condition of sign-out for all histories/configurations: success redirect only after Clear returned nil; Manager.Clear always emits the cookie deletion and passes the store-delete error up unchanged (nil only for a missing cookie); the cookie store sweeps every presented cookie matching the quoted name(_N)? pattern and deletes it under its presented name; setters and deleters agree on name and options. Level 'other'.",
+      TRUST + " Not decided: replaying histories against a live store, 251-256 byte name truncation, browser behaviour.", "DESIGN.md §5 C11")
+
 for i in range(2, 21):
     pid = "C%02d" % i
     if pid not in T:
